@@ -68,6 +68,7 @@ class Engine(ExprMixin, BuiltinMixin):
         self.oid_prefix = ""
         self.case_suffix = ""
         self.global_overrides = {}
+        self.inv_mode = "prove"
 
     # ------------------------------------------------------------------ obligations
     def oblige(self, oid, st, goal, props=None, kind="post", func=None, line=None,
